@@ -220,9 +220,27 @@ def classes():
     return out
 
 
+_REFERENCE_BOUNDS = None
+
+
+def reference_bounds():
+    """Committed table {class path: [min octets, max octets, width of the length prefix]}: the bounds of the wire
+    formats as the pinned tree declares them (trusted as the specifications' bounds).  The vectors are judged against
+    the bounds the tree under test declares; a declaration that became *looser* than the reference is itself a way of
+    leaving the bounds."""
+    global _REFERENCE_BOUNDS  # pylint: disable=global-statement
+    if _REFERENCE_BOUNDS is None:
+        import json
+        import os
+        with open(os.path.join(core.VERIF_DIR, 'corpus', 'vector_bounds.json')) as handle:
+            _REFERENCE_BOUNDS = json.load(handle)
+    return _REFERENCE_BOUNDS
+
+
 def prepare(tier):  # pylint: disable=unused-argument
     corpus.warm_variants()
     classes()
+    reference_bounds()
     return None
 
 
@@ -549,6 +567,13 @@ def execute(doc):  # pylint: disable=too-many-branches,too-many-statements
     outcomes = []
     clauses = set()
     lo, hi = param.min_byte_num, param.max_byte_num
+    reference = reference_bounds().get(doc['cls'])
+    if reference is not None and (lo < reference[0] or hi > reference[1] or param.item_num_size != reference[2]):
+        res.violation((PROPERTY, 'declared-bounds-looser-than-reference', name),
+                      'the encoded size stays within the bounds of the wire format',
+                      '%s declares [%d, %d] octets with a %d-octet prefix; the reference table says [%d, %d] with a '
+                      '%d-octet prefix' % (name, lo, hi, param.item_num_size, reference[0], reference[1], reference[2]))
+        ok = False
     for step, op in enumerate(doc['ops']):
         if not ok:
             break
